@@ -248,8 +248,15 @@ class MachineLogic(Generic[TContext, TEvent]):
                 continue
 
             # ✅ Never clobber an explicitly provided implementation.
-            if name in registry:
-                continue
+            if name not in registry:
+                registry[name] = bound
+                logger.debug("🧬 Auto-registered subclass method '%s'.", name)
 
-            registry[name] = bound
-            logger.debug("🧬 Auto-registered subclass method '%s'.", name)
+            # 🐫 A method written in snake_case also answers to the camelCase
+            #    name a JSON config uses, exactly as module and provider
+            #    discovery do; `def is_ready` used to leave `"isReady"`
+            #    unimplemented.
+            parts = name.split("_")
+            camel = parts[0] + "".join(p.title() for p in parts[1:])
+            if camel != name and camel not in registry:
+                registry[camel] = bound
